@@ -23,6 +23,10 @@ func genC38(g *Gen) {
 				g.Op("mut", "%s %d %d %d", c, g.R.Intn(1<<20), g.R.Intn(1<<20), g.R.Intn(1<<20))
 			}
 		}
+		for k := 0; k < 6; k++ {
+			g.Count("mut:chunk-bitsweep")
+			g.Op("mut", "chunk-bitsweep %d 0 %d", g.R.Intn(1<<20), g.R.Intn(1<<20))
+		}
 		g.Op("verify", "")
 		for j := 0; j < 120; j++ {
 			kind := []string{"slot", "slot", "msgchunks", "marker", "repo", "archive"}[g.R.Pick(4, 4, 4, 3, 3, 1)]
